@@ -51,6 +51,10 @@ pub fn check_text(ctx: &Ctx, s: Option<&S>, text: &str, perturbed: bool) -> Resu
                             Err(f.with_sig(SIG_ANNOTATION))
                         } else if *hole_copies > 0 {
                             Err(f.with_sig(SIG_HOLE_IDENTITY))
+                        } else if text.contains("-> _") {
+                            // The other recorded finding about holes: one written under a binder
+                            // of a type is solved with indices valid at the use, not where it stands.
+                            Err(f.with_sig(crate::runner::SIG_HOLE_UNDER_BINDER))
                         } else {
                             Err(f)
                         }
@@ -299,13 +303,103 @@ const REGRESSIONS: [&str; 4] = [
     "x : 5 = 4; x",
 ];
 
+/// Programs in which the type of an un-annotated parameter `w` would have to mention a variable
+/// bound *after* it: `w => (a : type) => x => if c then W[w] else X`, where both branches are
+/// functions of the same shape, `W` returns `w` and `X` returns something of type `a`. The route by
+/// which `a` reaches the type of `w` varies: directly, under one to three binders, through the
+/// still unsolved type of another un-annotated parameter (of the branch, or `x` itself), with the
+/// branches in either order. No annotation of `w` makes such a program well typed.
+pub fn escape_program(ch: &mut Ch) -> String {
+    let use_c = ch.chance(1, 2);
+    let cond = if use_c { "c" } else { ["true", "false"][ch.pick(2)] };
+    let mut s = String::new();
+    if use_c {
+        s.push_str("(c : bool) => ");
+    }
+    // `w`'s annotation may also be a function type whose codomain is a hole: a hole written
+    // *under a binder* (the arrow's); both branches then return functions from int.
+    let w_arrow = ch.chance(1, 5);
+    s.push_str(if w_arrow { ["(w : int -> _) => ", "(w : (z0 : int) -> _) => "][ch.pick(2)] } else { ["w => ", "(w : _) => ", "{w} => "][ch.pick(3)] });
+    for i in 0..ch.pick(3) {
+        s.push_str(&[format!("(n{i} : int) => "), format!("(t{i} : type) => ")][ch.pick(2)]);
+    }
+    s.push_str("(a : type) => ");
+    if ch.chance(1, 3) {
+        s.push_str("(m : int) => ");
+    }
+    let x_annotated = ch.chance(3, 4);
+    s.push_str(if x_annotated { "(x : a) => " } else { "x => " });
+    // The two branches: k parameters of the same types on both sides.
+    let k = ch.pick(4);
+    let tys: Vec<&str> = (0..k).map(|_| ["a", "int", "bool", "type", "a"][ch.pick(5)]).collect();
+    let mut wside = String::new();
+    let mut xside = String::new();
+    let mut of_type_a = vec!["x".to_owned()];
+    // The branch that returns `w` may take only the first j of the k parameters: `w` then has to
+    // be a function of the remaining ones, and its type holds the escaping variable under binders.
+    let j = if k > 0 && ch.chance(2, 3) { ch.pick(k) } else { k };
+    for (i, t) in tys.iter().enumerate() {
+        if i < j {
+            wside.push_str(&format!("(q{i} : {t}) => "));
+        }
+        if ch.chance(1, 2) {
+            xside.push_str(&format!("p{i} => "));
+        } else {
+            xside.push_str(&format!("(p{i} : {t}) => "));
+        }
+        if *t == "a" {
+            of_type_a.push(format!("p{i}"));
+        }
+    }
+    wside.push('w');
+    // (mostly a parameter of the branch, if one has type `a`)
+    let pick_a = |ch: &mut Ch| if of_type_a.len() > 1 && ch.chance(2, 3) { of_type_a[1 + ch.pick(of_type_a.len() - 1)].clone() } else { of_type_a[ch.pick(of_type_a.len())].clone() };
+    let body = match ch.pick(3) {
+        0 => pick_a(ch),
+        1 => format!("if {cond} then {} else {}", pick_a(ch), pick_a(ch)),
+        _ => format!("(r : a = {}; r)", pick_a(ch)),
+    };
+    if w_arrow {
+        xside.push_str("(z1 : int) => ");
+    }
+    xside.push_str(&body);
+    let (l, r) = if ch.chance(1, 2) { (wside, xside) } else { (xside, wside) };
+    let expr = format!("if {cond} then ({l}) else ({r})");
+    // With `x` un-annotated, something may say what its type is, before or after.
+    let expr = if x_annotated {
+        expr
+    } else {
+        match ch.pick(6) {
+            0 => expr,
+            1..=3 => format!("(y : a = x; {expr})"),
+            _ => format!("(res = {expr}; y : a = x; res)"),
+        }
+    };
+    s.push_str(&expr);
+    s
+}
+
+fn escape_case(ctx: &Ctx, ch: &mut Ch) -> Outcome {
+    let text = escape_program(ch);
+    match check_text(ctx, None, &text, true)? {
+        Verdict::Rejected => {
+            ctx.class("scope escape: rejected");
+            ctx.nontrivial(&text);
+        }
+        Verdict::AcceptedSound => ctx.class("scope escape: accepted, and the elaborated term is well typed for the reference checker"),
+        Verdict::AcceptedWithHoles => ctx.class("scope escape: accepted with unresolved holes (outside the explicit checker's domain)"),
+        Verdict::Inconclusive => ctx.inconclusive("reference checker ran out of fuel on the elaborated term"),
+    }
+    Ok(())
+}
+
 pub fn def(tier: Tier) -> CheckDef {
     let rounds = tier.pick(40, 400);
     let max_size = tier.pick(5, 6);
     CheckDef {
         id: "C03",
         level: "exploration",
-        rule: "type-directed generated programs, 70% of them perturbed by 1-2 type-breaking mutations at random nodes (12 kinds: a subterm replaced by a literal / type / lambda, wrapped in an operator, a condition, an application, ...), a third also erased (omitted annotations, `_`), plus every closed explicit program up to size 5 (quick) / 6 (thorough) over a small vocabulary (exhaustive), plus every program `(a : p A) => (r : p B = a; r)` for same-former integer (and all pairs of comparison) index expressions A, B over {x, y, 1, 2} under a lambda-bound family p (exhaustive: conversion inside types), plus C04's exhaustive family of identity functions annotated `T1 -> T2` for all pairs of small type expressions (conditionals with every comparison operator, type-level functions, definition groups of different lengths); oracle = whenever gram accepts, an independent checker for explicit terms (R-core, conversion by NbE) must find the *elaborated* term well scoped and well typed with a type convertible with the reported one; and an explicit program that R-core rejects must be rejected by gram; the evidence counts, per typing rule, the programs both sides reject for that rule; non-trivial = accepted and perturbed, or accepted with an application and a binder, or an enumerated program of size >= 3; distinct by text",
+        rule: "type-directed generated programs, 70% of them perturbed by 1-2 type-breaking mutations at random nodes (12 kinds: a subterm replaced by a literal / type / lambda, wrapped in an operator, a condition, an application, ...), a third also erased (omitted annotations, `_`), plus every closed explicit program up to size 5 (quick) / 6 (thorough) over a small vocabulary (exhaustive), plus every program `(a : p A) => (r : p B = a; r)` for same-former integer (and all pairs of comparison) index expressions A, B over {x, y, 1, 2} under a lambda-bound family p (exhaustive: conversion inside types), plus C04's exhaustive family of identity functions annotated `T1 -> T2` for all pairs of small type expressions (conditionals with every comparison operator, type-level functions, definition groups of different lengths), plus generated `scope escape` programs in which the type of an un-annotated parameter would have to mention a variable bound after it (directly, under binders, or through the still unsolved type of another un-annotated parameter); oracle = whenever gram accepts, an independent checker for explicit terms (R-core, conversion by NbE) must find the *elaborated* term well scoped and well typed with a type convertible with the reported one; and an explicit program that R-core rejects must be rejected by gram; the evidence counts, per typing rule, the programs both sides reject for that rule; non-trivial = accepted and perturbed, or accepted with an application and a binder, or an enumerated program of size >= 3; distinct by text",
         assumptions: vec![
             "the typing rules are those of R-core (see C05); elaborated terms that still contain unresolved holes are outside the explicit checker's domain and are counted, not judged",
             "fuel exhaustion of the reference checker and aborts of gram's checker on divergent perturbed programs are inconclusive",
@@ -337,6 +431,15 @@ pub fn def(tier: Tier) -> CheckDef {
                 run: Box::new(|ctx, r| ctx.prop("generated", r, 400, 600, generated_case)),
                 replay: Some(Box::new(|ctx, inp| match inp {
                     ReplayInput::Choices(c) => generated_case(ctx, &mut Ch::new(c)),
+                    _ => Err(Failure::new("this part replays from choices", "")),
+                })),
+            },
+            Part {
+                name: "scope-escape",
+                rounds: tier.pick(10, 100),
+                run: Box::new(|ctx, r| ctx.prop("scope-escape", r, 400, 40, escape_case)),
+                replay: Some(Box::new(|ctx, inp| match inp {
+                    ReplayInput::Choices(c) => escape_case(ctx, &mut Ch::new(c)),
                     _ => Err(Failure::new("this part replays from choices", "")),
                 })),
             },
